@@ -21,6 +21,7 @@ import Driver.NodeCache
 import Driver.NodeSync
 import Driver.ConsensusStore
 import Driver.Downloader
+import Driver.Translated
 /-
 One line per handler object. The first handler that understands a line answers it.
 -/
@@ -28,6 +29,7 @@ namespace ZV.Driver
 
 def registry : List Obj := [
   pureObj purePow,
+  pureObj pureTranslated,
   pureObj pureRpc,
   vdbObj,
   ledgerObj,
